@@ -25,6 +25,8 @@ structure Zone where
   trans : List (Int × Int)
   deriving Repr, DecidableEq
 
+def nsPerSec : Int := 1000000000
+
 /-- seconds → nanoseconds -/
 def offNs (o : Int) : Int := o * 1000000000
 
@@ -108,26 +110,57 @@ theorem fromLocal_eq_nil_lt (z : Zone) (n : Int) (h : fromLocal z n = []) : n < 
     simp only [List.append_eq_nil_iff] at h
     exact fromLocalFrom_eq_nil_lt t' o' rest n h.2
 
-/-- `Localize::datetime` for `TzLocation`:
+/-- the minute loop of `Localize::datetime` for `TzLocation`: the first local time among
+`n, n + 1 min, …` that exists, with its `latest()` instant.
 ```
-loop { if let Some(dt) = tz.from_local_datetime(&naive).latest() { return dt; }
+loop { if let Some(dt) = tz.from_local_datetime(&naive).latest() { …walk back…; return dt; }
        naive = naive.checked_add_signed(TimeDelta::minutes(1)).expect("no valid datetime for time zone"); }
 ```
 The loop terminates because every local time from `lastLocal z` on exists (measure
 `lastLocal z - n`); the `expect` is a panic site (`NaiveDateTime::MAX`), proved unreachable for
 `n ≤ DATE_END` in `OH.Props.C09.datetime_no_panic`. -/
-def datetime (z : Zone) (n : Int) : M Int :=
+def minuteLoop (z : Zone) (n : Int) : M (Int × Int) :=
   match h : (fromLocal z n).getLast? with
-  | some u => .ok u
+  | some u => .ok (n, u)
   | none =>
     if n + nsPerMin > instMax then .error "localize.rs:datetime no valid datetime for time zone"
-    else datetime z (n + nsPerMin)
+    else minuteLoop z (n + nsPerMin)
 termination_by (lastLocal z - n).toNat
 decreasing_by
   have h1 : fromLocal z n = [] := List.getLast?_eq_none_iff.mp h
   have h2 := fromLocal_eq_nil_lt z n h1
   simp only [nsPerMin]
   omega
+
+/-- the walk back inside the success branch (a minute step may land past the end of a gap that does
+not end on a whole minute):
+```
+while naive > requested {
+    naive -= TimeDelta::seconds(1);          // panics below NaiveDateTime::MIN
+    match self.tz.from_local_datetime(&naive).latest() { Some(prev) => dt = prev, None => break }
+}
+return dt;
+```
+The subtraction cannot underflow for a representable `requested` (`naive − requested` is a whole
+number of seconds): `OH.Proofs.Tz.walkBack_ok`. -/
+def walkBack (z : Zone) (requested naive dt : Int) : M Int :=
+  if naive > requested then
+    if naive - nsPerSec < instMin then .error "chrono:NaiveDateTime - TimeDelta overflowed"
+    else
+      match (fromLocal z (naive - nsPerSec)).getLast? with
+      | some prev => walkBack z requested (naive - nsPerSec) prev
+      | none => .ok dt
+  else .ok dt
+termination_by (naive - requested).toNat
+decreasing_by
+  simp only [nsPerSec]
+  omega
+
+/-- `Localize::datetime` for `TzLocation` (`let requested = naive; loop { … }`) -/
+def datetime (z : Zone) (n : Int) : M Int :=
+  match minuteLoop z n with
+  | .error p => .error p
+  | .ok (m, u) => walkBack z n m u
 
 /-! ### well-formed tables -/
 
@@ -180,6 +213,36 @@ def localSpanInGap (z : Zone) (a b : Int) : Bool :=
   match gapOf z a with
   | some (_, _, g) => decide (a < b ∧ b ≤ g)
   | none => false
+
+/-- class predicate `unaligned-gap` on (table, naive instant), after the walk-back repair: `n` is
+skipped by a forward jump whose landing time is not a whole number of SECONDS after `n` —
+`datetime z n` then is `(n - b) mod 1 s` after the first valid instant.  Never the case for a whole-second
+`n` in a whole-second table (`OH.Props.C09.unalignedGap_false`), i.e. for no naive result. -/
+def unalignedGap (z : Zone) (n : Int) : Bool :=
+  match gapOf z n with
+  | some (_, _, b) => decide ((n - b) % nsPerSec ≠ 0)
+  | none => false
+
+/-- class predicate `unaligned-gap-backwards` on (table, naive bounds `a ≤ b`): `a` is skipped by a
+forward jump landing on `g`, and `b` lies in `[g, g + (a - g) mod 1 s)`: `datetime z a` is AFTER
+`datetime z b`.  Needs a sub-second phase of `a`: never for evaluator bounds. -/
+def backwardsInGap (z : Zone) (a b : Int) : Bool :=
+  match gapOf z a with
+  | some (_, _, g) => decide (a ≤ b ∧ g ≤ b ∧ b < g + (a - g) % nsPerSec)
+  | none => false
+
+/-- class predicate `zone-not-ok` on (table, naive instant): `n` is skipped by a forward jump at `T`
+but the landing second `b + r` is not read last at `T + r` (a fold follows the gap directly, e.g.
+Europe/Lisbon 1992-09-27): `latest()` answers the post-fold reading.
+Impossible for `zoneOK` tables (`OH.Props.C09.gapLandsInFold_false`). -/
+def gapLandsInFold (z : Zone) (n : Int) : Bool :=
+  match gapOf z n with
+  | some (T, _, b) => (fromLocal z (b + (n - b) % nsPerSec)).getLast? != some (T + (n - b) % nsPerSec)
+  | none => false
+
+/-- transitions happen on whole seconds (offsets are whole seconds by type): true of every table
+chrono-tz can hold (`i64` timestamps) -/
+def secondsAligned (z : Zone) : Bool := z.trans.all (fun p => decide (p.1 % nsPerSec = 0))
 
 /-- every forward jump lands on a whole local minute (`GapMinuteAligned`) -/
 def gapsAlignedFrom (p : Int) : List (Int × Int) → Bool
@@ -247,23 +310,17 @@ def iterFromTzG (env : Env) (z : Zone) (frm : Int) : M (List Interval) :=
   | .error p => .error p
   | .ok e => iterRangeTzG env z frm e
 
-/-- `state(t)`:
+/-- `state(t)` (repaired code, /repo b0d5731): purely naive —
 ```
-if self.ctx.locale.naive(current_time.clone()) >= DATE_END { return RuleKind::Closed; }
-self.iter_range(current_time.clone(), current_time + Duration::minutes(1)).next()…
+let naive_time = self.ctx.locale.naive(current_time);
+if naive_time >= DATE_END { return RuleKind::Closed; }
+self.iter_range_naive(naive_time, naive_time + Duration::minutes(1)).next()…
 ```
-the minute is added to the ABSOLUTE instant (`DateTime<Tz> + TimeDelta`, panics past
-`NaiveDateTime::MAX`) before both bounds are made local -/
+i.e. `OH.Model.stateG` at the wall-clock time; no `datetime` mapping, no absolute `+ 1 min` -/
 def stateTzG (env : Env) (z : Zone) (t : Int) : M Kind :=
   match naiveChecked z t with
   | .error p => .error p
-  | .ok n0 =>
-    if n0 ≥ instEnd then .ok .closed
-    else if t + nsPerMin > instMax then .error "chrono:DateTime + TimeDelta overflowed"
-    else match firstIntervalTzG env z t (t + nsPerMin) with
-      | .error p => .error p
-      | .ok none => .ok .closed
-      | .ok (some iv) => .ok iv.kind
+  | .ok n0 => stateG env n0
 
 /-- `next_change(t)`: `iter_from(t).next()?`, then `if locale.naive(end) >= DATE_END { None }` -/
 def nextChangeTzG (env : Env) (z : Zone) (t : Int) : M (Option Int) :=
@@ -288,20 +345,5 @@ def stateTz (ctx : Ctx) (e : Expr) (z : Zone) (t : Int) : M Kind :=
   stateTzG (envOf ctx e) z t
 def nextChangeTz (ctx : Ctx) (e : Expr) (z : Zone) (t : Int) : M (Option Int) :=
   nextChangeTzG (envOf ctx e) z t
-
-/-- the NoLocation API over an `Env`: `state` (as of the repaired code: closed from `DATE_END` on,
-before the window is built) and `next_change` (same body as `OH.Model.nextChange`) -/
-def stateNL (env : Env) (t : Int) : M Kind :=
-  if t ≥ instEnd then .ok .closed
-  else match firstIntervalG env t (t + nsPerMin) with
-    | .error p => .error p
-    | .ok none => .ok .closed
-    | .ok (some iv) => .ok iv.kind
-
-def nextChangeNL (env : Env) (t : Int) : M (Option Int) :=
-  match firstIntervalG env t instEnd with
-  | .error p => .error p
-  | .ok none => .ok none
-  | .ok (some iv) => if iv.stop ≥ instEnd then .ok none else .ok (some iv.stop)
 
 end OH.Model.Tz
